@@ -13,7 +13,7 @@ PROPERTY = "C01"
 RULE = (
     "case = (kernel spec, mean, likelihood, n, d, n*, parameter/train/test batch shapes, settings combination, seed); all 2^5 "
     "combinations of {lazily_evaluate_kernels, max_eager_kernel_size above/below, max_cholesky_size 800/0, fast_pred_var, "
-    "detach_test_caches} plus skip_posterior_variances / fast_computations triples, crossed pairwise-randomly with kernels x means "
+    "detach_test_caches} plus skip_posterior_variances / fast_computations triples / memory_efficient / trace_mode / pivoted-Cholesky-preconditioned CG (min_preconditioning_size 1), directed large-n CG cases (n = 120, 200: tolerance-limited solves), crossed pairwise-randomly with kernels x means "
     "x likelihoods x shapes x batch patterns (+ Kronecker multitask models); hyper-parameters drawn per batch element; distinct = "
     "distinct cell (everything but the seed); non-trivial iff posterior differs from the prior by > 1e-3 in mean or covariance"
 )
